@@ -304,7 +304,7 @@ impl DeepRead for {name} {{
 {deep}        o.push(')');
     }}
     fn addrs(&self, base: usize, o: &mut Vec<(usize, usize)>) {{
-        o.push(((self as *const Self as *const u8 as usize).wrapping_sub(base), std::mem::size_of_val(self)));
+        note(self, base, o);
 {addrs}    }}
 }}
 '''
@@ -392,7 +392,7 @@ impl DeepRead for {name} {{
 {deep_arms}        }}
     }}
     fn addrs(&self, base: usize, o: &mut Vec<(usize, usize)>) {{
-        o.push(((self as *const Self as *const u8 as usize).wrapping_sub(base), std::mem::size_of_val(self)));
+        note(self, base, o);
         match {scrut} {{
 {addr_arms}        }}
     }}
